@@ -66,6 +66,12 @@ ExpMatched(s, w) ==
     {r \in DOMAIN s.rd : s.rd[r].alive /\ s.wr[w].alive /\ Reachable(s, s.wr[w].net, s.rd[r].net, s.now)
                          /\ ~Gone(s, s.wr[w].net, s.rd[r].net, s.now)
                          /\ Compatible(s.wr[w].q, s.rd[r].q)}
+\* expected matched writers of reader r: the view of the READER's participant decides (ignoring is one-sided: the ignored
+\* participant does not learn of it and keeps the ignoring one matched)
+ExpMatchedR(s, r) ==
+    {w \in DOMAIN s.wr : s.rd[r].alive /\ s.wr[w].alive /\ Reachable(s, s.rd[r].net, s.wr[w].net, s.now)
+                         /\ ~Gone(s, s.rd[r].net, s.wr[w].net, s.now)
+                         /\ Compatible(s.wr[w].q, s.rd[r].q)}
 Definite(s, a) == /\ \A b \in DOMAIN s.pt : (a # b /\ s.pt[b].silenced >= 0) => (Gone(s, a, b, s.now) \/ Kept(s, a, b, s.now))
                   \* a participant deleted while the discovery traffic was lossy may be remembered by the others until its lease expires
                   /\ \A b \in DOMAIN s.pt : (a # b /\ s.pt[b].lossyDel >= 0) => s.now > s.pt[b].lossyDel + LEASE + POKE + SETTLE
@@ -76,7 +82,7 @@ Refresh(s) ==
                         LET e == ExpMatched(s, w)
                         IN [s.wr[w] EXCEPT !.exp = e, !.tot = @ + Cardinality(e \ s.wr[w].exp)]],
               !.rd = [r \in DOMAIN s.rd |->
-                        LET e == {w \in DOMAIN s.wr : r \in ExpMatched(s, w)}
+                        LET e == ExpMatchedR(s, r)
                         IN [s.rd[r] EXCEPT !.exp = e, !.tot = @ + Cardinality(e \ s.rd[r].exp)]]]
 
 OnParticipant(s, e, c) ==
